@@ -22,6 +22,7 @@ func Bytes(label string, max int) []byte
 func BytesN(label string, n int) []byte
 func OpaqueBytes(n int) []byte
 func Defined(pkgPath, typeName string, v int64) bool
+func Dur(label string, maxSeconds int64) time.Duration
 func Choose(label string, n int) int
 func Assume(c bool)
 func Assert(id string, c bool)
